@@ -32,8 +32,10 @@ NormOK(T, I, idx, rep) ==
 AnycastNote(T, idx, rep) ==
   LET mp == MsgParse(T, idx) IN
   (mp.ok /\ mp.info.kind = "ext_in" /\ mp.info.dest.any.d > 0) =>
-     PrintT(<<"NOTE", l, IF rep = Hex(NormHash(mp.info.dest, BodyTable(T, mp))) THEN StrCat("anycast-cleared:", mp.info.dest.kind)
-                         ELSE StrCat("anycast-kept:", mp.info.dest.kind)>>)
+     LET BT == BodyTable(T, mp) IN
+     CASE rep = Hex(NormHash(mp.info.dest, BT))         -> PrintT(<<"NOTE", l, StrCat("anycast-cleared:", mp.info.dest.kind)>>)
+       [] rep = Hex(NormHashVerbatim(mp.info.dest, BT)) -> PrintT(<<"NOTE", l, StrCat("anycast-kept:", mp.info.dest.kind)>>)
+       [] OTHER -> TRUE
 
 \* ------------------------------------------------------------------- Msg
 CaseShape(cs) == [kind |-> cs.kind, init |-> cs.init, body |-> cs.body, src |-> cs.src, dest |-> cs.dest, any |-> cs.any, fee |-> cs.fee]
@@ -64,14 +66,17 @@ JudgePair(e) ==
 \* -------------------------------------------------------------------- Tx
 BocOK(hexboc, want) ==
   LET P == Parse(HexToBytes(hexboc)) IN
-  P.ok /\ Len(P.roots) = 1 /\ \A i \in 1..Len(P.T) : HashableCell(P.T[i])
-       /\ RootHashes(P) = <<want>>
-KeyBits(k) == BitsM!UBits(ToString(k), 15)
+  /\ P.ok
+  /\ Len(P.roots) = 1
+  /\ \A i \in 1..Len(P.T) : HashableCell(P.T[i])
+  /\ RootHashes(P) = <<want>>
 JudgeTx(e) ==
   LET T == FromJson(e.cells)  I == InfoTable(T)  tp == TxParse(T, 1)  want == ReprHash(I[1])
       om == OutMsgs(T, tp)
-      CellOf(k) == (CHOOSE x \in om.s : x[1] = KeyBits(k))[2]
-      Known(k) == \E x \in om.s : x[1] = KeyBits(k)
+      keys == {x[1] : x \in om.s}
+      cellOf == [k \in keys |-> (CHOOSE x \in om.s : x[1] = k)[2]]
+      CellOf(k) == cellOf[k]
+      Known(k) == k \in keys
   IN AllHold(<< <<"tx-parse", tp.ok>>,
         <<"tx-binding", tp.ok => (tp.acc = BytesToBits(HexToBytes(e.acc)) /\ tp.lt = BitsM!UBits(e.lt, 64))>>,
         <<"tx-hash", e.h = Hex(want)>>,
@@ -85,7 +90,7 @@ JudgeTx(e) ==
                         (NormOK(T, I, tp.inIdx, e.im.hn) /\ NormOK(T, I, tp.inIdx, e.im.hnc))>>,
         <<"out-dict", (e.full /\ tp.ok) => om.ok>>,
         <<"out-count", (e.full /\ tp.ok /\ om.ok) => (e.nout = Cardinality(om.s) /\ e.noutc = e.nout /\ Len(e.om) = e.nout)>>,
-        <<"out-keys", (e.full /\ tp.ok /\ om.ok) => (/\ \A j \in 1..Len(e.om) : Known(e.om[j].key)
+        <<"out-keys", (e.full /\ tp.ok /\ om.ok) => ((\A j \in 1..Len(e.om) : Known(e.om[j].key))
                                                       /\ Cardinality({e.om[n].key : n \in 1..Len(e.om)}) = Len(e.om))>>,
         <<"out-hash", (e.full /\ tp.ok /\ om.ok) => \A j \in 1..Len(e.om) : Known(e.om[j].key) =>
                         (e.om[j].h = Hex(ReprHash(I[CellOf(e.om[j].key)])) /\ e.om[j].hc = e.om[j].h)>>,
